@@ -5,8 +5,10 @@ from vlib import core
 THEOREMS = ['follows_doc', 'follows_doc_read', 'doc_covered', 'malformed_rejected', 'wellformed_accepted', 'wellFormed_iff_accepted',
             'never_request_on_reject', 'wire_length', 'ka_enforced', 'ka_enforced_value', 'ka_on_every_write', 'ka_nowhere_else', 'ka_idempotent',
             'ka_only_setreaderconfig', 'ka_is_half_timeout', 'switch_matches_model', 'cases_tables_agree', 'read_default_iff', 'write_default_iff',
-            'action_default_iff', 'codes_defined']
-MODULES = ['LLRP.Model.Command']
+            'action_default_iff', 'codes_defined',
+            # about the go2seq translation of LLRPDevice.TrySend
+            'src_ka_enforced', 'src_other_requests_untouched']
+MODULES = ['LLRP.Proofs.SeqTrySend', 'LLRP.Model.GoSeq', 'LLRP.Model.Command']
 RULE = ('real HandleReadCommands/HandleWriteCommands against a scripted reader recording every frame: reads = every list of 0-3 names '
         'out of 12 (8 known, custom, empty, wrong case, Action); writes = 12 resources x 19 first-parameter kinds x 17 second request/parameter '
         'kinds x attributes x count mismatches; 2 ID resources x 9 actions x 5 ids; custom: 24x24 vendor/subtype attribute kinds x payload kinds; '
